@@ -1,8 +1,10 @@
 (** Correspondence + property checker for C20 (market admission: flags, attributes, fees).
-    A case is one market as handed to MsgGovCreateMarket (fee tables, flags, the three required
-    attribute lists exactly as given), whether the real code created it, and a list of probes made
-    against it through the real keeper / message handlers, each with the observed accept (true) /
-    reject (false).  When the market was not created the probes ran against an unknown market id.
+    A case is one market as handed to MsgGovCreateMarket (fee tables, flags, bips, intermediary
+    denom, the three required attribute lists exactly as given), whether the real code created it,
+    and a list of probes made against it through the real keeper / message handlers / query
+    server, in order, each with what was observed.  Some probes CHANGE the market (flag updates,
+    MsgGovManageFees, MsgMarketManageReqAttrs): the probes after them meet the changed market.
+    When the market was not created the probes ran against an unknown market id.
     Account attributes are the names AttributeKeeper.GetAllAttributesAddr returned for the account. *)
 From Coq Require Import ZArith NArith List String Bool.
 From PV Require Export Exchange.Arith Exchange.ReqAttr Exchange.FeeCheck Exchange.AdmitSpec Corr.CorrBase.
@@ -11,16 +13,30 @@ Open Scope string_scope.
 Open Scope list_scope.
 Open Scope Z_scope.
 
-Inductive flat_kind := KCreateAsk | KCreateBid | KCreateCom | KSellerFlat.
+Inductive flat_kind := KCreateAsk | KCreateBid | KCreateCom | KSellerFlat | KBuyerFlat.
 Inductive attr_kind := RAsk | RBid | RCom.
+
+(** What a quote-derived request claims about itself. *)
+Inductive quoted := QExact | QExactZero | QBelowSingle.
 
 Inductive probe :=
 | PFlat (k : flat_kind) (fee : option coin) (obs : bool)         (* Keeper.ValidateCreate*FlatFee / ValidateSellerSettlementFlatFee *)
 | PBuyer (price : coin) (fee : list coin) (obs : bool)           (* Keeper.ValidateBuyerSettlementFee *)
 | PAskPrice (price : coin) (flat : option coin) (obs : bool)     (* Keeper.ValidateAskPrice *)
 | PCan (k : attr_kind) (accs : list string) (obs : bool)         (* Keeper.CanCreateAsk/Bid/Commitment *)
-| PAct (accs : list string) (a : action) (obs : bool)            (* message handler, funds available *)
-| PFlags (ao us ac : bool).                                       (* Keeper.Update*: the flags from here on *)
+| PAct (accs : list string) (a : action) (obs : bool)            (* ValidateBasic + message handler, funds available *)
+| PFlags (ao us ac : bool)                                        (* Keeper.Update*: the flags from here on *)
+| PFees (f : fee_msg) (obs : bool)                                (* MsgGovManageFees: ValidateBasic + handler *)
+| PAttrs (a : attr_msg) (obs : bool)                              (* MsgMarketManageReqAttrs: ValidateBasic + handler *)
+| PReqs (k : attr_kind) (obs : list string)                       (* Keeper.GetReqAttrsAsk/Bid/Commitment *)
+| PTable (k : flat_kind) (obs : list coin)                        (* Keeper.Get*FlatFees *)
+| PRatios (seller : bool) (obs : list ratio)                      (* Keeper.GetSeller/BuyerSettlementRatios *)
+| PBips (obs : Z)                                                 (* Keeper.GetCommitmentSettlementBips *)
+| PQuoteAsk (price : coin) (obs : option quote)                   (* QueryServer.OrderFeeCalc, ask *)
+| PQuoteBid (price : coin) (obs : option quote)                   (* QueryServer.OrderFeeCalc, bid *)
+| PQuoted (q : quoted) (accs : list string) (a : action) (obs : bool)   (* a request whose fees were taken from the observed quote *)
+| PComQuote (fee_denom : string) (navs : list nav) (total : list coin)
+            (obs : option (option Z)) (settle : option bool).     (* CommitmentSettlementFeeCalc; MsgMarketCommitmentSettle *)
 
 Inductive case := CMarket (m : market) (created : bool) (probes : list probe).
 
@@ -28,6 +44,7 @@ Definition flat_table (m : market) (k : flat_kind) : list coin :=
   match k with
   | KCreateAsk => m_create_ask m | KCreateBid => m_create_bid m
   | KCreateCom => m_create_com m | KSellerFlat => m_seller_flat m
+  | KBuyerFlat => m_buyer_flat m
   end.
 Definition stored_reqs (s : stored) (k : attr_kind) : list bytes :=
   match k with RAsk => s_req_ask s | RBid => s_req_bid s | RCom => s_req_com s end.
@@ -42,10 +59,24 @@ Definition tag2 (spec obs : bool) (admitted refused : string) : list string :=
   | _, _ => []
   end.
 
+(** Listings come out of the store in key order: compared as sets of equal size. *)
+Definition same_set {A} (eqb : A -> A -> bool) (l1 l2 : list A) : bool :=
+  Nat.eqb (List.length l1) (List.length l2) &&
+  forallb (fun a => existsb (eqb a) l2) l1 && forallb (fun a => existsb (eqb a) l1) l2.
+Definition quote_eqb (a b : quote) : bool :=
+  let '(c1, f1, r1) := a in
+  let '(c2, f2, r2) := b in
+  same_set coin_eqb c1 c2 && same_set coin_eqb f1 f2 && same_set coin_eqb r1 r2.
+Definition optZ_eqb (a b : option Z) : bool := opt_eqb Z.eqb a b.
+
+(** The stored lists must be normalised (fixed points of NormalizeName), valid and duplicate-free. *)
+Definition reqs_normalised (l : list bytes) : bool :=
+  forallb (fun e => bytes_eqb (normalize_name e) e && is_valid_req_attr e) l && nodup_bytes l.
+
 Definition check_probe (m : market) (created : bool) (mk : option stored) (p : probe) : list string :=
   let s := tables mk in
   let sm := s_mkt s in
-  (* the market the property speaks about: the configuration as given, or nothing *)
+  (* the market the property speaks about: the configuration as given and changed, or nothing *)
   let pm := if created then m else empty_market in
   match p with
   | PFlat k fee obs =>
@@ -68,26 +99,120 @@ Definition check_probe (m : market) (created : bool) (mk : option stored) (p : p
            "prop:account_without_required_attributes_allowed" "prop:account_with_required_attributes_refused"
   | PAct accs a obs =>
       let al := map bytes_of accs in
-      tag (Bool.eqb (admits mk al a) obs) "corr:admission" ++
-      tag2 (admit_spec created m al a) obs
+      tag (Bool.eqb (admits_msg mk al a) obs) "corr:admission" ++
+      tag2 (admit_spec_msg created m al a) obs
            "prop:ineligible_request_admitted" "prop:eligible_request_refused"
-  | PFlags _ _ _ => []
+  | PQuoted q accs a obs =>
+      let al := map bytes_of accs in
+      tag (Bool.eqb (admits_msg mk al a) obs) "corr:admission_of_quoted_fee" ++
+      match q with
+      | QExact =>
+          (* the fees were put together from the options the query returned: an eligible,
+             well-formed request paying them must be admitted *)
+          if request_wf a && eligible_spec created m al a && negb obs
+          then ["prop:quoted_fee_refused"] else []
+      | QExactZero => []     (* judged in [check_probes]: a known finding must not hide later probes *)
+      | QBelowSingle =>
+          (* one coin, one unit below flat + ratio of its denom as quoted: must be refused *)
+          if obs then ["prop:less_than_quoted_fee_admitted"] else []
+      end
+  | PReqs k obs =>
+      let ol := map bytes_of obs in
+      tag (list_bytes_eqb (stored_reqs s k) ol) "corr:stored_required_attributes" ++
+      tag (reqs_normalised ol) "prop:stored_required_attributes_not_normalised" ++
+      (* what is stored is the normalised form of the configuration as written and changed *)
+      tag (list_bytes_eqb (map (fun r => normalize_name (bytes_of r)) (raw_reqs pm k)) ol)
+          "prop:stored_required_attributes_differ_from_configuration"
+  | PTable k obs =>
+      tag (same_set coin_eqb (flat_table sm k) obs) "corr:flat_fee_table" ++
+      tag (same_set coin_eqb (flat_table pm k) obs) "prop:flat_fee_table_differs_from_configuration"
+  | PRatios seller obs =>
+      tag (same_set ratio_eqb (if seller then m_seller_ratios sm else m_buyer_ratios sm) obs) "corr:ratio_table" ++
+      tag (same_set ratio_eqb (if seller then m_seller_ratios pm else m_buyer_ratios pm) obs)
+          "prop:ratio_table_differs_from_configuration"
+  | PBips obs => tag (m_bips sm =? obs) "corr:commitment_settlement_bips"
+  | PQuoteAsk price obs =>
+      tag (opt_eqb quote_eqb (quote_ask mk price) obs) "corr:order_fee_calc_ask" ++
+      tag (opt_eqb quote_eqb (quote_ask_spec created m price) obs) "prop:order_fee_calc_differs_from_required_fees"
+  | PQuoteBid price obs =>
+      tag (opt_eqb quote_eqb (quote_bid mk price) obs) "corr:order_fee_calc_bid" ++
+      tag (opt_eqb quote_eqb (quote_bid_spec created m price) obs) "prop:order_fee_calc_differs_from_required_fees"
+  | PComQuote fd navs total obs settle =>
+      let q := commitment_quote mk fd navs total in
+      tag (opt_eqb optZ_eqb q obs) "corr:commitment_settlement_fee_calc" ++
+      match settle with
+      | Some b => tag (Bool.eqb (is_some q) b) "corr:commitment_settle_fee_step" ++
+                  tag (Bool.eqb (is_some obs) b) "prop:commitment_settlement_charge_differs_from_quote"
+      | None => []
+      end
+  | PFlags _ _ _ | PFees _ _ | PAttrs _ _ => []
   end.
 
-(** The probes in order; a [PFlags] probe changes the flags for the probes after it.  The failures
-    of the first failing probe are reported with its position. *)
-Fixpoint check_probes (m : market) (created : bool) (mk : option stored) (i : N) (ps : list probe)
-  : list string :=
+(** The quote offered a ratio option of amount zero (a buyer ratio for the price denom whose charge
+    for this price is 0) and the request, paying exactly the quoted options, carries no coin for
+    it (a zero coin cannot be sent).  The unchanged code refuses such a request: findings/C20.md. *)
+Definition zero_ratio_quoted (m : market) (a : action) : bool :=
+  let z price := existsb (fun r => String.eqb (r_pd r) (denom_of price) &&
+                                   opt_eqb Z.eqb (apply_to_loosely (r_pa r) (r_fa r) (amt_of price)) (Some 0))
+                         (m_buyer_ratios m) in
+  match a with
+  | ACreateBid price _ _ => z price
+  | AFillAsks _ price _ _ => z price
+  | _ => false
+  end.
+Definition soft_tag : string := "prop:quoted_fee_with_zero_ratio_option_refused".
+Definition check_zero_quote (m : market) (created : bool) (accs : list string) (a : action) (obs : bool)
+  : list string * list string :=                                   (* (hard, soft) *)
+  let al := map bytes_of accs in
+  if request_wf a && eligible_spec created m al a && negb obs then
+    if zero_ratio_quoted m a then ([], [soft_tag]) else (["corr:zero_ratio_option_claimed"], [])
+  else ([], []).
+
+Definition with_step (t : list string) (i : N) : list string :=
+  map (fun x => (x ++ " @step " ++ N_to_string i)%string) t.
+
+(** The probes in order; [PFlags], [PFees] and [PAttrs] change the market for the probes after
+    them: [m] is the configuration (changed declaratively, [step_cfg]), [mk] the model's store
+    (changed by the transcription, [step_stored]).  The failures of the first failing probe are
+    reported with its position. *)
+Fixpoint check_probes (m : market) (created : bool) (mk : option stored) (i : N) (soft : list string)
+         (ps : list probe) : list string :=
   match ps with
-  | [] => []
+  | [] => soft
   | PFlags ao us ac :: r =>
-      check_probes (set_flags m ao us ac) created
-                   (match mk with Some s => Some (set_flags_stored s ao us ac) | None => None end)
-                   (N.succ i) r
+      check_probes (step_cfg m (UFlags ao us ac)) created
+                   (option_map (fun s => step_stored s (UFlags ao us ac)) mk) (N.succ i) soft r
+  | PFees f obs :: r =>
+      (* the handler does not look at the market: accepted iff ValidateBasic passes *)
+      if Bool.eqb (fee_msg_valid f) obs then
+        check_probes (step_cfg m (UFees f)) created
+                     (option_map (fun s => step_stored s (UFees f)) mk) (N.succ i) soft r
+      else with_step ["corr:manage_fees_accepted"] i
+  | PAttrs a obs :: r =>
+      let model_ok := match mk with Some s => is_some (manage_req_attrs s a) | None => false end in
+      let cfg_ok := created && is_some (cfg_manage_req_attrs m a) in
+      match tag (Bool.eqb model_ok obs) "corr:manage_req_attrs_accepted" ++
+            tag (Bool.eqb cfg_ok obs) "prop:required_attribute_change_not_as_configured" with
+      | [] => check_probes (step_cfg m (UAttrs a)) created
+                           (option_map (fun s => step_stored s (UAttrs a)) mk) (N.succ i) soft r
+      | e => with_step e i
+      end
   | p :: r =>
       match check_probe m created mk p with
-      | [] => check_probes m created mk (N.succ i) r
-      | e => map (fun t => (t ++ " @step " ++ N_to_string i)%string) e
+      | [] =>
+          match p with
+          | PQuoted QExactZero accs a obs =>
+              (* the known finding is remembered (first occurrence) and the later probes are still
+                 checked: any other failure is reported instead of it *)
+              match check_zero_quote m created accs a obs with
+              | ([], sf) =>
+                  check_probes m created mk (N.succ i)
+                               (match soft with [] => with_step sf i | _ => soft end) r
+              | (hard, _) => with_step hard i
+              end
+          | _ => check_probes m created mk (N.succ i) soft r
+          end
+      | e => with_step e i
       end
   end.
 
@@ -96,7 +221,7 @@ Definition check (c : case) : list string :=
   | CMarket m created probes =>
       let mk := create_market m in
       if Bool.eqb (is_some mk) created then
-        check_probes m created mk 0%N probes
+        check_probes m created mk 0%N [] probes
       else ["corr:create_market"]
   end.
 
